@@ -25,7 +25,7 @@ func init() {
 		},
 		Run:            c08Run,
 		Floor:          func(tier string) int { return 5000 },
-		Rule:           "generated requests: Transpose (every kind of permutation of rank 0..4; invalid perms), Concat (1..4 inputs, every axis in both spellings; mismatching extents/ranks, axis out of range), Slice (starts/ends over [-dim-2, dim+2] plus INT64/INT32 extremes, positive and negative steps, axes given/defaulted/negative/unsorted, int32 and int64 index tensors; step 0, duplicate or out-of-range axes, length mismatches), Gather (every axis, index tensors of rank 0..2 with negative indices; out-of-range index/axis), Expand (targets shorter, equal, longer than the input rank; incompatible targets); unique-valued data of all 14 element types; operator API plus every 4th case through Run. Must-compute core (MUST_EQUAL): any permutation, Concat on a valid axis, Slice with in-range non-negative bounds and positive steps, Gather with in-range indices, Expand with target rank >= input rank; other valid requests MAY_REFUSE (right tensor or error); ONNX-invalid requests MUST_ERROR. Non-trivial = moves/selects data (not the identity) or invalid; distinct = (operator, dtype, shapes, parameters)." + ruleShared + ruleReused,
+		Rule:           "(Concat also with an empty input that disagrees in rank or off-axis extent: refused) generated requests: Transpose (every kind of permutation of rank 0..4; invalid perms), Concat (1..4 inputs, every axis in both spellings; mismatching extents/ranks, axis out of range), Slice (starts/ends over [-dim-2, dim+2] plus INT64/INT32 extremes, positive and negative steps, axes given/defaulted/negative/unsorted, int32 and int64 index tensors; step 0, duplicate or out-of-range axes, length mismatches), Gather (every axis, index tensors of rank 0..2 with negative indices; out-of-range index/axis), Expand (targets shorter, equal, longer than the input rank; incompatible targets); unique-valued data of all 14 element types; operator API plus every 4th case through Run. Must-compute core (MUST_EQUAL): any permutation, Concat on a valid axis, Slice with in-range non-negative bounds and positive steps, Gather with in-range indices, Expand with target rank >= input rank; other valid requests MAY_REFUSE (right tensor or error); ONNX-invalid requests MUST_ERROR. Non-trivial = moves/selects data (not the identity) or invalid; distinct = (operator, dtype, shapes, parameters)." + ruleShared + ruleReused,
 		RaceInThorough: true,
 		Technique:      "runtime monitoring: differential execution against the reference index formulas with exact comparison over unique-valued tensors",
 		Assumptions:    []string{"ONNX index formulas as written in DESIGN.md Appendix A.8"},
